@@ -748,6 +748,10 @@ class Instrs(CallsMixin):
             if types.kind(x.t) == 'map':
                 kv = ev.coerce(ev.ev(e[2]), types.desc(x.t)['key'])
                 return ModTarget('map', ref=x.term, tk=types.under(x.t), key=V.key_term(types, kv, st))
+        if e[0] == 'id' and e[1] in getattr(self.cx, 'freevar_names', []) and ev.st.regs.get(e[1]) is not None \
+                and types.kind(ev.st.regs[e[1]].t) == 'ptr':
+            # a variable captured by reference: the cell it lives in
+            return ModTarget('loc', loc=st.ptr_loc(ev.st.regs[e[1]]))
         try:
             v = ev.ev(e)
         except SpecError:
